@@ -48,7 +48,7 @@ func init() { register(&listProp{}) }
 func (p *listProp) ID() string { return "C15" }
 
 func (p *listProp) Rule() string {
-	return "scenario = item list + client page size + server page cap + Link header form + last + callback failure at page j + artifact-type filter applied by the server (header/annotation) or not + document padding around MaxMetadataBytes, for Tags, Repositories, Referrers (API and tag schema) and the OCI-layout Tags listing (half of those with 1-2 tasks listing while the tags are set and removed: each such listing is sorted, duplicate-free, holds every tag whose Tag had returned and whose Untag had not begun, and nothing that was never set or whose Untag had returned); non-trivial = the result spans >=2 pages, or a filter/limit/last/callback failure is in play; distinct = distinct (request trace hash, delivered list hash)"
+	return "scenario = item list + client page size + server page cap + Link header form + last + callback failure at page j (a plain error, or one that wraps a sentinel error of the library: not-found, already-exists, unsupported, size-exceeds-limit, EOF) + artifact-type filter applied by the server (header/annotation) or not + document padding around MaxMetadataBytes, for Tags, Repositories, Referrers (API and tag schema) and the OCI-layout Tags listing (half of those with 1-2 tasks listing while the tags are set and removed: each such listing is sorted, duplicate-free, holds every tag whose Tag had returned and whose Untag had not begun, and nothing that was never set or whose Untag had returned); non-trivial = the result spans >=2 pages, or a filter/limit/last/callback failure is in play; distinct = distinct (request trace hash, delivered list hash)"
 }
 
 func (p *listProp) Components() map[string][]string {
